@@ -155,7 +155,11 @@ class Counted:
 
 def run_counted(dyk, P, x0, kwargs):
     cp = Counted(P)
-    out = dyk(cp.P, x0, **kwargs)
+    if 'max_iter' in kwargs and 'tol' in kwargs and (kwargs['max_iter'] + len(P)) % 2 == 0:
+        # the documented signature is dykstra(P, x0, max_iter=100, tol=1e-10): half of the fully specified calls are positional
+        out = dyk(cp.P, x0, kwargs['max_iter'], kwargs['tol'])
+    else:
+        out = dyk(cp.P, x0, **kwargs)
     return out, cp
 
 
